@@ -55,6 +55,7 @@ def failStr : Fail → String
   | .marshal .short => "err:short_buffer"
   | .marshal (.ext cls) => s!"ext:{cls}"
   | .marshal .length => "hello-length"
+  | .marshal .tooLong => "too-long"
 
 def outcomeStr : Outcome → String
   | .abort a cls => s!"abort:{a}:{cls}"
@@ -66,14 +67,24 @@ def outcomeStr : Outcome → String
 def ckClass (h : SH) : String :=
   match h.cookie with
   | none => "ck0"
-  | some c => if c.length = 1 then "ck1" else if c.length ≤ 32 then "ck32" else if c.length ≤ 999 then "ckN" else "ck1000"
+  | some c => if c.length = 1 then "ck1" else if c.length ≤ 32 then "ck32" else if c.length ≤ 999 then "ckN"
+              else if c.length ≤ 60000 then "ck1000" else "ckhuge"
+
+/-- TLS 1.3 offered on the wire: in the first supported_versions extension, or by legacy_version. -/
+def wireAdvertises13 (sp1 : Split) : Bool :=
+  match bodiesOf 43 sp1.exts with
+  | bd :: _ => match readVec8 bd with
+    | some (l, _) => ((decU16s l).getD []).contains 0x0304
+    | none => false
+  | [] => decide (0x0304 ≤ sp1.fixed.vers)
 
 /-- the class of the HelloRetryRequest as the property statement partitions them (computed from the
 first hello's wire bytes and the HRR, not from the model). -/
 def hrrClass (sp1 : Split) (h : SH) (psk : Bool) (basicOk : Bool) : String :=
   let curves := wireCurves sp1.exts
   let shares := (wireShares sp1.exts).map (·.1)
-  if ¬ basicOk then "badfields"
+  if ¬ wireAdvertises13 sp1 then "noversion"
+  else if ¬ basicOk then "badfields"
   else if h.group = 0 ∧ h.cookie = none then "nochange"
   else if h.share ≠ 0 then "malformed"
   else if h.group = 0 then "cookieonly"
@@ -83,6 +94,8 @@ def hrrClass (sp1 : Split) (h : SH) (psk : Bool) (basicOk : Bool) : String :=
   else if shares.contains h.group then "shared"
   else if psk then "psk"
   else if ¬ classical h.group then "nonec"
+  -- no ClientHello can echo such a cookie: the extensions block is limited to 65535 bytes
+  else if (match h.cookie with | some ck => decide (ck.length > 60000) | none => false) then "toobig"
   else "valid"
 
 def check (isScript : Bool) (c : Case) : Verdict :=
